@@ -106,6 +106,13 @@ class LoopHoistPureOperations(RewritePattern):
 
             rewriter.insert_op(main_op, InsertPoint.before(for_op))
 
+            # a buffer that is allocated once is freed once: its dealloc leaves the loop as well
+            for result in main_op.results:
+                for use in tuple(result.uses):
+                    if isinstance(use.operation, memref.DeallocOp) and for_op.is_ancestor(use.operation):
+                        use.operation.detach()
+                        rewriter.insert_op(use.operation, InsertPoint.after(for_op))
+
 
 class MoveMemrefDims(RewritePattern):
     """
